@@ -1348,6 +1348,8 @@ class ThreadsafeForwardingResult(TestResult):
 
     def startTestRun(self):
         super().startTestRun()
+        # Run-level tags do not outlive the run they were set in.
+        self._global_tags = set(), set()
         self.semaphore.acquire()
         try:
             self.result.startTestRun()
